@@ -94,6 +94,33 @@ Theorem C03_cascade_impl_spec : forall (d : document) (pseudo : N) (path : path)
 Proof. exact cascade_impl_spec. Qed.
 Print Assumptions C03_cascade_impl_spec.
 
+(* Without the hypothesis the statement is false for the faithful model: the
+   code replaces `&` of a top-level rule by :root, which selects the right
+   element but weighs (0,1,0) where css-nesting-1 gives `&` specificity 0
+   there.  Witness (replayed on /repo by corpus/C03/top-level-amp.json and the
+   `topamp` stream of the check, known finding C03/top-level-amp-specificity):
+   `& {z-index:11} html {z-index:12}` cascades to 11 on <html>, CSS says 12. *)
+Definition C03_cascade_unrestricted_statement : Prop :=
+  forall d pseudo path p, used d pseudo path p = cascaded d pseudo path p.
+
+Definition ex_html : node := mkNode 9 None [] [] [].
+Definition ex_doc_amp : document :=
+  mkDoc 1 false RNil 1 RNil 1
+    [mkAuthor [] (RStyle [SAmp] (BDecl (mkDecl 0 11 false) BNil)
+                 (RStyle [STag 9] (BDecl (mkDecl 0 12 false) BNil) RNil))] [].
+
+Theorem C03_top_level_amp_refuted : ~ C03_cascade_unrestricted_statement.
+Proof.
+  intros H. specialize (H ex_doc_amp 0 [ex_html] 0). vm_compute in H. discriminate H.
+Qed.
+Print Assumptions C03_top_level_amp_refuted.
+
+(* the rule still selects exactly the elements the specification says *)
+Theorem C03_top_level_rule_selects_spec : forall g,
+  Forall2 (fun s s' => forall k q, sapplies (c_amp top_ctx) s k q = applies s' k q) g (resolve_top g).
+Proof. exact top_rel_applies. Qed.
+Print Assumptions C03_top_level_rule_selects_spec.
+
 Theorem C03_cascade_picks_the_winner : forall d pseudo path p v,
   doc_no_top_amp d = true ->
   (used d pseudo path p = Some v <->
